@@ -54,6 +54,20 @@ theorem C20_cursor_monotone (c : Chan) (r : Rcv) (h : r.cursor ≤ c.seq) :
 theorem C20_subscribe_sees_later_only (c : Chan) : (pollSmol c c.subscribe).1 = .pending := by
   simp [pollSmol, recvSmol, Chan.subscribe]
 
+/-- **When the state goes away**: a value set before the last handle was dropped is still delivered (marked continuing),
+    and only then does the subscription end - in both runtimes alike; a subscriber that was up to date ends at once. -/
+theorem C20_after_close (c : Chan) (r : Rcv) (h : r.cursor ≤ c.seq) :
+    pollClosed pollTokio c r = pollClosed pollSmol c r ∧
+    pollClosed pollSmol c r = (if r.cursor = c.seq then (.ended, r) else (.item c.last true, { cursor := c.seq })) ∧
+    (r.cursor < c.seq → (pollClosed pollSmol c (pollClosed pollSmol c r).2).1 = .ended) := by
+  refine ⟨by unfold pollClosed; rw [C20_runtimes_agree c r h], ?_, ?_⟩
+  · unfold pollClosed
+    rw [C20_poll c r h]
+    by_cases h1 : r.cursor = c.seq <;> simp [h1]
+  · intro hlt
+    have hne : ¬ r.cursor = c.seq := by omega
+    simp [pollClosed, pollSmol, recvSmol, hne]
+
 /-- **One-shot**: exactly one item marked final, then the end; a dropped notifier ends it at once. -/
 theorem C20_once (v : Nat) :
     pollOnce (.notified v) = (.item v false, .terminated) ∧ pollOnce .terminated = (.ended, .terminated) ∧
@@ -65,5 +79,9 @@ namespace Example
 def ops : List Op := [.sub, .set 1, .set 2, .sub, .poll 0, .poll 1, .set 3, .poll 1, .poll 0, .poll 0]
 example : run pollTokio ops init = [(0, .item 2 true), (1, .pending), (1, .item 3 true), (0, .item 3 true), (0, .pending)] := by decide
 example : run pollSmol ops init = run pollTokio ops init := by decide
+/-- the state is dropped with a value the first subscriber has not seen: it gets the value, then the end; the other one,
+    up to date, ends at once -/
+example : run pollSmol [.sub, .sub, .set 1, .poll 1, .set 2, .poll 1, .close, .poll 0, .poll 0, .poll 1] init =
+    [(1, .item 1 true), (1, .item 2 true), (0, .item 2 true), (0, .ended), (1, .ended)] := by decide
 end Example
 end C20
